@@ -93,6 +93,8 @@ def release_rule(F, rep, c, relkey):
     rep.fn_seen(h)
     try:
         sl = cmpterm.slice_lex(F, h)
+    except cmpterm.Mismatch as e:
+        rep.bad("R11.1", "release-order:" + h.path.rsplit("::", 1)[-1], "release comparison deviates from the zero-padded left-to-right comparison: %s" % e, h.where()); return
     except cmpterm.Unrecognised as e:
         rep.undecided("R11.1", "unrecognised-shape:" + h.path.rsplit("::", 1)[-1], "release comparison: %s" % e, h.where()); return
     probs = []
